@@ -73,6 +73,10 @@ func c17Val(r *h.Rand, t *gen.Type, kind string, asciiBin bool) *tref.Val {
 		if t.Bin && !asciiBin {
 			return tref.Bin(r.Bytes(1 + r.Intn(9)))
 		}
+		if !t.Bin && (kind == "query" || kind == "form" || kind == "path" || kind == "header") && r.Chance(10) {
+			// a text that merely looks like JSON is still the text of a string field
+			return tref.Str([]string{`"v1"`, `[::1]`, `{abc}`, `[1,2]`, `{"a":1}`, `"`, `[`, `{}`, `""`, `"a" `}[r.Intn(10)])
+		}
 		return tref.Str(c17Word(r, rich))
 	case tref.BOOL:
 		return tref.Bool(r.Bool())
@@ -965,7 +969,7 @@ func runC17(c *h.Ctx) {
 				case hf.f.T.T == tref.STRING:
 					x = tref.Str(c17Word(cs.R, false))
 				default:
-					x = c17Val(cs.R, hf.f.T, "header", false)
+					x = c17Val(cs.R, hf.f.T, "response", false)
 				}
 				v.Fs = append(v.Fs, tref.Field{ID: hf.f.ID, V: x})
 				if len(hf.srcs) > 0 {
@@ -1181,7 +1185,7 @@ func c17RespOptions(c *h.Ctx) {
 			case hf.f.T.T == tref.I32 && len(hf.srcs) > 0:
 				x = tref.Int32(int32([]int{200, 201, 404, 500, 302}[cs.R.Intn(5)]))
 			default:
-				x = c17Val(cs.R, hf.f.T, "header", false)
+				x = c17Val(cs.R, hf.f.T, "response", false)
 				if hf.f.T.T == tref.STRING && cs.R.Chance(20) {
 					x = tref.Str("") // an empty value is a value
 				}
